@@ -348,13 +348,25 @@ def state_writes(f, m, state, own_only=False):
     if own_only:
         for y in m.fallthrough.get(state, ()):
             region -= m.region[y]
-    for bid in region:
-        b = m.blocks[bid]
-        trees = [e for s in b["stmts"] for e in X.stmt_exprs(s)]
-        c = C.term_cond(b)
-        if c is not None:
-            trees.append(c)
-        for tr in trees:
+    def trees_of(blocks_):
+        out_ = []
+        for b in blocks_:
+            out_ += [e for s in b["stmts"] for e in X.stmt_exprs(s)]
+            c = C.term_cond(b)
+            if c is not None:
+                out_.append(c)
+        return out_
+    all_trees = trees_of([m.blocks[bid] for bid in region])
+    # a block of a state that was extracted into a local lambda of the parser (`copy_base_search()`): its writes count
+    # for the state that calls it
+    for tr in list(all_trees):
+        for n in X.walk(tr, local=True):
+            if n.get("k") == "call" and (n.get("callee") or "").startswith("lambda@"):
+                g = m.fx.by_key.get(n["callee"]) if hasattr(m, "fx") else None
+                if g is not None and g.get("lambda") and (" in " + f["key"]) in g["key"] and g.get("blocks"):
+                    all_trees += trees_of(g["blocks"])
+    for _once in (0,):
+        for tr in all_trees:
             for n in X.walk(tr, local=True):
                 if n.get("k") in ("assign",) or (n.get("k") == "call" and n.get("op") in ("=", "+=")):
                     tgt = n.get("lhs") if n.get("k") == "assign" else n.get("recv")
@@ -465,33 +477,7 @@ def check(ctx, fx):
         ctx.broken("W2: parser instantiations not found")
 
     def writes(f, m, state, uid_name="url"):
-        out = collections.Counter()
-        for bid in m.region.get(state, ()):
-            b = m.blocks[bid]
-            trees = [e for s in b["stmts"] for e in X.stmt_exprs(s)]
-            c = C.term_cond(b)
-            if c is not None:
-                trees.append(c)
-            for tr in trees:
-                for n in X.walk(tr, local=True):
-                    if n.get("k") in ("assign",) or (n.get("k") == "call" and n.get("op") in ("=", "+=")):
-                        tgt = n.get("lhs") if n.get("k") == "assign" else n.get("recv")
-                        t0 = X.strip(tgt) if tgt is not None else None
-                        if isinstance(t0, dict) and t0.get("k") == "member" and X.show(t0).startswith("url."):
-                            comp = URL_FIELDS.get(t0.get("field"), "?" + str(t0.get("field")))
-                            if comp:
-                                out[comp] += 1
-                    if n.get("k") == "call" and not n.get("op"):
-                        nm = n.get("name")
-                        involved = X.show(n.get("recv")) == "url" or any(X.show(X.strip(a)).startswith("url.") or X.show(X.strip(a)) == "url"
-                                                                       for a in n.get("args", []))
-                        if nm in CALL_COMPONENTS and involved:
-                            for cc in CALL_COMPONENTS[nm]:
-                                out[cc] += 1
-                        elif involved and n.get("recv") is not None and X.show(n["recv"]) == "url" and not n.get("const_method") \
-                                and n.get("fp"):
-                            out["?" + str(nm)] += 1
-        return out
+        return state_writes(f, m, state)
     (fu, mu), (fa, ma) = ms["url"], ms["url_aggregator"]
     states = sorted(set(mu.case_entry) | set(ma.case_entry))
     ctx.floor("W2", len(states), 19, "parser states")
